@@ -315,3 +315,50 @@ def run_attrorder(chk, F, rid="R-ATTRORDER"):
                "%s:%s" % (fn["file"], fn["line"]))
     if n < 10:
         raise AnalysisBroken("only %d XMLWriter methods analysed" % n)
+
+
+# ---------------------------------------------------------------------------------------------- independent labels
+def run_label_guards(chk, F, rid="R-LABELGUARD"):
+    """Whether a label is written may depend only on the field it prints (is it empty?), never on another field of
+    the same location / edge: `if (invariant) .. else if (rate) ..` drops the rate of every location that also has
+    an invariant."""
+    chk.rule(rid, "every label(kind, FIELD.str(), ..) call in XMLWriter::location / ::labels is guarded only by "
+                  "conditions on that same FIELD (then-branches; never the else-branch of a test of another field)")
+    n = 0
+    for mname, owner in (("location", "UTAP::location_t"), ("labels", "UTAP::edge_t")):
+        fn = F.fn(XW + "::" + mname)
+
+        def visit(node, guards):
+            nonlocal n
+            if isinstance(node, list):
+                for x in node:
+                    visit(x, guards)
+                return
+            if not isinstance(node, dict):
+                return
+            if node.get("k") == "if":
+                cf = {m["name"] for m in walk(node["c"]) if m.get("k") == "member" and m.get("of") == owner}
+                visit(node.get("then"), guards + [("then", cf)])
+                visit(node.get("else"), guards + [("else", cf)])
+                return
+            if node.get("k") == "call" and node.get("name") == "label" and len(node.get("args", [])) >= 2:
+                kind = [x["v"] for x in walk(node["args"][0]) if x.get("k") == "str"]
+                fields = {m["name"] for m in walk(node["args"][1]) if m.get("k") == "member" and m.get("of") == owner}
+                if fields:
+                    n += 1
+                    foreign = sorted({f for how, cf in guards for f in cf if f not in fields})
+                    in_else = [sorted(cf) for how, cf in guards if how == "else" and cf]
+                    chk.ob(rid, "%s|%s" % (mname, (kind or ["?"])[0]), not foreign and not in_else,
+                           "XMLWriter::%s writes the `%s` label (from %s) only %s: a %s that has both loses this label "
+                           "in the written file" % (mname, (kind or ["?"])[0], sorted(fields),
+                                                    "in the else-branch of a test of %s" % in_else if in_else else
+                                                    "under a condition on %s" % foreign,
+                                                    "location" if mname == "location" else "transition"),
+                           "%s:%s" % (fn["file"], node.get("l")))
+                return
+            for v in node.values():
+                if isinstance(v, (dict, list)):
+                    visit(v, guards)
+        visit(fn["body"], [])
+    if n < 4:
+        raise AnalysisBroken("only %d label() calls with a document field found in the XML writer" % n)
